@@ -358,6 +358,21 @@ def run_property(mod, tier, seed, only_case=None):
             futs = [ex.submit(_worker_job, j) for j in jobs]
             for f in as_completed(futs):
                 results.append(f.result())
+    # every OPEN finding has a committed minimal witness; it is replayed on every invocation so the
+    # KNOWN-FINDING line is printed exactly while the witness still fails
+    if quirks and hasattr(mod, 'witness') and only_case is None:
+        _worker_init(mod.__name__) if 'mod' not in _WORKER else None
+        wsh = Shard(mod.PROP, tier, seed, quirks)
+        for fid in sorted(quirks):
+            wsh.cur = ['witness', fid]
+            try:
+                mod.witness(fid, wsh)
+            except Mismatch as mm:
+                wsh.violation(mm.key, **mm.detail)
+            except Exception as e:
+                fr = lib_frame(e)
+                wsh.violation('witness %s: exception:%s@%s' % (fid, type(e).__name__, fr), tb=traceback.format_exc()[-800:])
+        results.append(dict(wsh.result(), reach={}))
     m = merge(results)
     extra_cov = {}
     if hasattr(mod, 'finish') and only_case is None:
